@@ -3292,16 +3292,46 @@ def make_fixed_search(shape):
     def build(st, it):
         prog = it.p
         word = [st.sym_char("w%d" % i, BENGALI_LO, 0x09DF) for i in range(wlen)]
-        # the first letter must have a table: keep it a consonant
-        st.assume(zin(word[0], list(range(0x0995, 0x09A9))))
+        semantic = shape.get("semantic_match", False)
+        # the first letter must have a table: keep it a consonant (semantic shapes: also a vowel or a vowel sign - the tables of the vowels
+        # are consulted for words that begin with the matching sign)
+        st.assume(zin(word[0], list(range(0x0995, 0x09A9)) + ([0x0986, 0x0987, 0x098F, 0x09BE, 0x09BF, 0x09C7] if semantic else [])))
         exts = []
         words = []
         for k in range(nwords):
             ext = [st.sym_char("x%d_%d" % (k, j), BENGALI_LO, 0x09DF) for j in range(shape["ext"])]
             exts.append(ext)
-            words.append(SString(list(word) + ext))
+            if semantic:
+                # any entry of the table: its first letter any letter, the rest the typed rest or not
+                head = [st.sym_char("h%d_%d" % (k, j), BENGALI_LO, 0x09DF) for j in range(wlen)]
+                words.append(SString(head + ext))
+            else:
+                words.append(SString(list(word) + ext))
         ed_memo = {}
         ed_log = []
+
+        def is_match_semantic(it2, args, callee):
+            """The regex engine on the one pattern shape the search builds, `^literal[class]{0,k}$` (the hygiene obligation shows the literal
+            has no character the pattern language gives a meaning to): the entry is the literal followed by at most k characters of the class."""
+            rx = args[0].get() if isinstance(args[0], Ref) else args[0]
+            pat = list(rx.payload[0]) if isinstance(rx, Opaque) and rx.payload else None
+            if pat is None:
+                raise Unsupported("is_match on a pattern this harness did not see compiled")
+            e = list(elems_of(args[1]))
+            cut = max(i for i, ch in enumerate(pat) if not is_sym(ch) and ch == ord("["))
+            close = max(i for i, ch in enumerate(pat) if not is_sym(ch) and ch == ord("]"))
+            lit = pat[1:cut]
+            cls_ = [ch for ch in pat[cut + 1:close]]
+            tail = "".join(chr(ch) for ch in pat[close + 1:])
+            import re as _re
+            mm = _re.match(r"\{0,(\d+)\}\$$", tail)
+            if not mm or any(is_sym(ch) for ch in cls_):
+                raise Unsupported("pattern shape %r" % tail)
+            kmax = int(mm.group(1))
+            if len(e) < len(lit) or len(e) - len(lit) > kmax:
+                return False
+            conds = [seq_eq(e[:len(lit)], lit)] + [zin(ch, cls_) for ch in e[len(lit):]]
+            return simp(z3.And(conds))
 
         def get_words_for(it2, args, callee):
             from mirsym.models import ItSlice
@@ -3309,7 +3339,7 @@ def make_fixed_search(shape):
 
         def regex_new(it2, args, callee):
             from mirsym.values import ok
-            return ok(Opaque("Regex"))
+            return ok(Opaque("Regex", (tuple(elems_of(args[0])),)))
 
         def is_match(it2, args, callee):
             return True
@@ -3323,10 +3353,11 @@ def make_fixed_search(shape):
                 ed_memo[k] = d
                 ed_log.append((a, b, d))
             return ed_memo[k]
-        it.env["overrides"] = {"Data::get_words_for": get_words_for, "Regex::new": regex_new, "Regex::is_match": is_match, "edit_distance": edit_distance}
+        it.env["overrides"] = {"Data::get_words_for": get_words_for, "Regex::new": regex_new, "Regex::is_match": is_match_semantic if semantic else is_match,
+                               "edit_distance": edit_distance}
         trad = st.sym_bool("traditional_kar")
         sugg = SVec([])
-        st.ctx = dict(word=word, words=words, exts=exts, trad=trad, sugg=sugg, ed_memo=ed_memo)
+        st.ctx = dict(word=word, words=words, exts=exts, trad=trad, sugg=sugg, ed_memo=ed_memo, semantic=semantic)
         fn = prog.find_fn("search_dictionary")
 
         def run():
@@ -3350,6 +3381,17 @@ def make_fixed_search(shape):
             return [dict(kind="violation", clause="no_panic", inputs=inputs(model), predicted=pred(model))]
         items = c["sugg"].items
         trad = zb(c["trad"])
+        if c["semantic"]:
+            # the table holds any words: whatever is offered begins with the typed word (non-joiners of traditional joining aside)
+            begins = []
+            for x in items:
+                text = [ch for ch in rank_text(x)]
+                plain = [ch for ch in text if is_sym(ch) or ch != CL.ZWNJ]
+                begins.append(seq_eq(plain[:len(c["word"])], list(c["word"])) if len(plain) >= len(c["word"]) else z3.BoolVal(False))
+            clauses = [("candidate_begins_with_the_typed_word", z3.And(begins) if begins else True), ("cover:semantic_search", True)]
+            if items:
+                clauses.append(("cover:ranked", True))
+            return eval_clauses(st, clauses, lambda cn, m: dict(kind="violation", clause=cn, inputs=inputs(m), predicted=pred(m)))
         clauses = [("every_match_is_offered", len(items) == len(c["words"]))]
         base_key = key_of_elems(c["word"])
         for x, w in zip(items, c["words"]):
@@ -3390,12 +3432,13 @@ def lev(a, b):
 def fixed_rank_search(vs):
     """Native confirmation: type prefixes in fixed mode (traditional joining on and off) and compare every dictionary candidate's number in
     the scratch list with the edit distance between the typed word and the shown text."""
-    prefixes = ["দাদ", "দিদ", "কু", "বু", "সু", "মৃ", "দীক্ষ", "আম", "কর"]
+    # the last ones begin with a vowel sign (typeable with automatic vowel forming off): the table of the matching vowel is searched
+    prefixes = ["দাদ", "দিদ", "কু", "বু", "সু", "মৃ", "দীক্ষ", "আম", "কর", "ামি", "াম", "িন", "েক", "োন"]
     scs = []
     meta = []
     for trad in (True, False):
         for pfx in prefixes:
-            cfg = {"layout_json": {"Key_a_Normal": pfx}, "database": REPO + "/data", "opts": {"fixed_suggestion": True, "kar": trad}}
+            cfg = {"layout_json": {"Key_a_Normal": pfx}, "database": REPO + "/data", "opts": {"fixed_suggestion": True, "kar": trad, "vowel": False}}
             scs.append({"steps": [{"op": "new", "config": cfg}, {"op": "key", "key": 0xA096}, {"op": "get_state"}]})
             meta.append((pfx, trad))
     res = run_replay(scs)
@@ -3405,6 +3448,10 @@ def fixed_rank_search(vs):
             return sc, rr[1], "fixed mode: composing %r panics: %s" % (pfx, rr[1]["panic"]), None
         ranks = rr[2]["state"]["suggestions"]
         others = [(t, n) for k, t, n in ranks if k == 2]
+        for t, n in others:
+            if not t.replace("\u200c", "").startswith(pfx):
+                return sc, rr[2], ("fixed mode, traditional joining %s: typed %r, the candidate %r does not begin with it; list %s" % (trad, pfx, t, [x[1] for x in ranks])), \
+                    "fixed search: a candidate does not begin with the typed word"
         for t, n in others:
             want = (lev(pfx, t) * 10) & 0xFF
             if n != want:
@@ -3418,7 +3465,10 @@ def fixed_rank_search(vs):
 
 def obl_fixed_search(check, thorough=False, budget_s=None):
     shapes = [dict(wlen=1, nwords=2, ext=1), dict(wlen=2, nwords=1, ext=2)] + ([dict(wlen=2, nwords=2, ext=2)] if thorough else [])
-    check.bounds["fixed_search_ranks"] = dict(word="1-2 symbolic Bengali-block code points", dictionary="1-2 matching words = typed word + 1-2 symbolic code points",
+    # the table holds any words (not only continuations of the typed one) and the regex engine is modelled on the one pattern shape the
+    # search builds: whatever is offered begins with the typed word
+    shapes += [dict(wlen=2, nwords=1, ext=1, semantic_match=True), dict(wlen=1, nwords=2, ext=1, semantic_match=True)] + ([dict(wlen=2, nwords=2, ext=2, semantic_match=True)] if thorough else [])
+    check.bounds["fixed_search_ranks"] = dict(word="1-2 symbolic Bengali-block code points", dictionary="1-2 matching words = typed word + 1-2 symbolic code points; 1-2 arbitrary table entries with the engine modelled on ^literal[class]{0,k}$",
                                               traditional_joining="symbolic", edit_distance="uninterpreted function of (typed word, text)")
     records, errors, summ = msym.run_shapes(check, "fixed_search_ranks", shapes, make_fixed_search, budget_s=budget_s)
     vio = [r for r in records if r["kind"] == "violation" and r["clause"] != "no_panic"]
@@ -3427,11 +3477,11 @@ def obl_fixed_search(check, thorough=False, budget_s=None):
     if errors:
         check.obligation(name, "mirsym", "inconclusive", "executor gave up: " + "; ".join(sorted(set(errors))[:3]))
         return
-    if "cover:ranked" not in covers:
+    if "cover:ranked" not in covers or "cover:semantic_search" not in covers:
         check.obligation(name, "mirsym", "inconclusive", "vacuity: no candidate was ranked")
         return
     if not vio:
-        check.obligation(name, "mirsym", "held", "%d paths; every candidate shows the dictionary word (ligatures blocked under traditional joining) and carries 10 x distance(typed word, shown text)" % summ["paths"])
+        check.obligation(name, "mirsym", "held", "%d paths; every candidate begins with the typed word, shows the dictionary word (ligatures blocked under traditional joining) and carries 10 x distance(typed word, shown text)" % summ["paths"])
         return
     found = fixed_rank_search(vio)
     if found is None:
